@@ -55,3 +55,41 @@ def accessor_component(facts, key):
     s = models.accessor_summary(facts, key)
     fp = models.field_path(s["field"]) if s["field"] is not None else None
     return s, fp
+
+
+def build_direct_writes(body):
+    """Direct stores into fields of self in build(): [(bb, field path)] -- through `self.parts.x = ..` or, after
+    `let Self { package_type, parts } = self;`, through the locals that continue those fields."""
+    roots = {1: ""}
+    for l, fp in models.self_field_locals(body).items():
+        roots[l] = fp
+    out = []
+    for l, base in roots.items():
+        for w in body.partial_writes(l):
+            if body.is_cleanup(w[0]):
+                continue
+            pl = w[2]["place"] if w[1] != "term" else w[2]["dest"]
+            names = [pr["name"] for pr in pl["proj"] if pr["p"] == "field"]
+            out.append((w[0], ".".join(([base] if base else []) + names)))
+    return out
+
+
+def build_frame_obligations(ctx, rule):
+    """build() changes the parts only through: the type's finish hook, qualifiers.retain (empty values) and
+    qualifiers.insert (canonical checksum); and returns exactly those parts.  Necessary for 'what was set / what was
+    written is what the accessors return'."""
+    facts = ctx.facts()
+    bm = models.builder_model(facts)
+    key, body, st = bm["key"], bm["body"], bm["stages"]
+    if len(st["S1"]) != 1 or len(st["S3"]) != 1 or len(st["S4ins"]) != 1 or len(st["S5"]) != 1:
+        raise AnchorError("build(): stages not unique (finish %d, retain %d, insert %d, Ok %d)" % (len(st["S1"]), len(st["S3"]), len(st["S4ins"]), len(st["S5"])), key)
+    allowed = {st["S1"][0]["bb"], st["S3"][0]["bb"], st["S4ins"][0]["bb"]}
+    extra = [e for e in bm["effects"] if e["bb"] not in allowed and e["target"][0] == "arg"]
+    ctx.ob(rule, "build(): mutable access to the parts only by finish, qualifiers.retain, qualifiers.insert(checksum)", not extra, fn=key, site=extra[0]["site"] if extra else fn_site(facts, key), detail="; ".join("%s on %s" % (e["path"], e["target"][2]) for e in extra))
+    ok3 = st["S3"][0]["target"] == ("arg", 1, "parts.qualifiers") and st["S4ins"][0]["target"] == ("arg", 1, "parts.qualifiers")
+    ctx.ob(rule, "build(): retain and insert act on parts.qualifiers", ok3, fn=key, site=st["S3"][0]["site"], detail="%s / %s" % (st["S3"][0]["target"], st["S4ins"][0]["target"]))
+    dw = build_direct_writes(body)
+    ctx.ob(rule, "build(): no direct store into a field of the parts or the type", not dw, fn=key, site=body.site(dw[0][0]) if dw else fn_site(facts, key), detail="stores: %s" % [f for _, f in dw])
+    pay = st["S5"][0]["payload"]
+    okp = pay[0] == "agg" and [models.field_path(x) for x in pay[2]] == ["package_type", "parts"]
+    ctx.ob(rule, "build(): the result is made of exactly self.package_type and self.parts", okp, fn=key, site=st["S5"][0]["site"], detail=nshow(pay)[:160])
